@@ -154,7 +154,9 @@ pub fn wmc_lines(rng: &mut Rng, maxvars: usize, maxops: usize) -> Vec<String> {
                 }
                 maxlvl(d, b.order())
             };
-            let mut widths: Vec<usize> = (k0..=n).collect();
+            // … and up to two widths NARROWER than the diagram's deepest level: the first k levels
+            // are then completed and the deeper part of every path stays as it is
+            let mut widths: Vec<usize> = (k0.saturating_sub(2)..=n).collect();
             if i % 2 == 1 {
                 widths.reverse();
             }
@@ -219,9 +221,9 @@ pub fn wmc_lines(rng: &mut Rng, maxvars: usize, maxops: usize) -> Vec<String> {
             let (sh, shw) = by_prime!(pi, sem_hash, d, n);
             let (shn, _) = by_prime!(pi, sem_hash, d.neg(), n);
             format!(
-                "tt={} cn={} ca={} sm={} sa={} mc={} cr={} aw={}:{} cx={},{} cxn={},{} ce={},{} cen={},{} cp={} cpn={} nodes={} sh={} shn={} shw={} smk={}",
+                "tt={} cn={} ca={} sm={} sa={} mc={} cr={} aw={}:{} cx={},{} cxn={},{} ce={},{} cen={},{} cp={} cpn={} nodes={} sh={} shn={} shw={} smk={} k0={}",
                 tt, cn, ca, bdd_raw_string(sm), sa, mc, f64_exact(cr), abits, f64_exact(aw), f64_exact(cx.re), f64_exact(cx.im),
-                f64_exact(cxn.re), f64_exact(cxn.im), f64_exact(ce.0), f64_exact(ce.1), f64_exact(cen.0), f64_exact(cen.1), cp, cpn, d.count_nodes(), sh, shn, pairs(&shw), smk.join(";")
+                f64_exact(cxn.re), f64_exact(cxn.im), f64_exact(ce.0), f64_exact(ce.1), f64_exact(cen.0), f64_exact(cen.1), cp, cpn, d.count_nodes(), sh, shn, pairs(&shw), smk.join(";"), k0
             )
         });
         out.push(format!("{} => {}", head, r.unwrap_or_else(|e| e)));
